@@ -26,7 +26,8 @@ Judge(d, c) ==
         guardOk == ~g.hasguard \/ ((o.comp \/ g.gmin <= t.lo) /\ (t.hi >= INF \/ t.hi <= g.gmax))
     IN [oid |-> d.oid, name |-> o.name, exp |-> c.exp, lv |-> c.lv, lo |-> t.lo, hi |-> t.hi,
         dmin |-> d.min, dmax |-> d.max, dconst |-> d.const, gmin |-> g.gmin, gmax |-> g.gmax, hasguard |-> g.hasguard,
-        minOk |-> minOk, maxOk |-> maxOk, constOk |-> constOk /\ constVal, guardOk |-> guardOk]
+        minOk |-> minOk, maxOk |-> maxOk, constOk |-> constOk /\ constVal, guardOk |-> guardOk,
+        constSound |-> (d.const => (t.lo = t.hi)) /\ constVal]   \* soundness half only: a constant claim is true
 
 (* an IR record is judged in every context it claims AND the definition is valid for *)
 Claims(d, c) == \E j \in 1..Len(d.ctxs) : d.ctxs[j].exp = c.exp /\ d.ctxs[j].lv = c.lv
